@@ -18,7 +18,7 @@ func init() {
 	register(&Property{
 		ID:          "C20",
 		Technique:   "static analysis: field mod-sets of the write-batch implementations (what the mutators may store vs what Clear/Destroy reset), who-may-call enumeration of raw iterator constructors, guard implication by truth table on the shared range/limit iterator (which bound and which open bit each direction tests)",
-		Explanation: "Decides three narrow clauses of 'one contract for all engines': (T1) a cleared batch carries nothing over: for every implementation of engine.WriteBatch the receiver fields its mutators (Put, Delete, DeleteRange, Merge) may store to are reset by Clear and by Destroy, and wrappers delegate Clear to the wrapped batch; (T2) bounds, direction and limits are implemented once: outside package engine no raw engine iterator is obtained (only the shared range/limit wrapper constructors); (T3) the shared wrapper tests the upper bound with the right-open bit when iterating forward and the lower bound with the left-open bit when iterating in reverse, both in Valid and at the initial positioning, and the Count/Offset limits are applied in Valid/constructor. (T3, fallback) when SeekForPrev finds nothing the reverse fallback to the first key steps back if that key is beyond Max; (T5) the three in-memory DeleteRange walks stop at the end key (exclusive, like rocksdb and pebble); (T6) SeekForPrev is less-than-or-equal in every engine iterator: an implementation that uses a strictly-less seek looks for the equal key first.",
+		Explanation: "Decides three narrow clauses of 'one contract for all engines': (T1) a cleared batch carries nothing over: for every implementation of engine.WriteBatch the receiver fields its mutators (Put, Delete, DeleteRange, Merge) may store to are reset by Clear and by Destroy, and wrappers delegate Clear to the wrapped batch; (T2) bounds, direction and limits are implemented once: outside package engine no raw engine iterator is obtained (only the shared range/limit wrapper constructors); (T3) the shared wrapper tests the upper bound with the right-open bit when iterating forward and the lower bound with the left-open bit when iterating in reverse, both in Valid and at the initial positioning, and the Count/Offset limits are applied in Valid/constructor. (T3, fallback) when SeekForPrev finds nothing the reverse fallback to the first key steps back if that key is beyond Max; (T5) the three in-memory DeleteRange walks stop at the end key (exclusive, like rocksdb and pebble); (T6) SeekForPrev is less-than-or-equal in every engine iterator: an implementation that uses a strictly-less seek looks for the equal key first. Added after defects were shown on the in-memory engine: (T7) the radix write batch reads only through its own open transaction while it is built (no reader of the committed state in Put/Delete/DeleteRange/Merge), (T8) radix index keys are order preserving and prefix-free and encoder/decoder agree on the terminator, (T9) pebble's exclusive upper bound is extended exactly when the right end is closed.",
 		NotDecided:  "nearly all of C20: observational equivalence of pebble, the in-memory trees and (C++) rocksdb for seeks, merges, delete-range, snapshots; the merge operators' arithmetic agreement; SeekForPrev semantics of each engine.",
 		Assumptions: []string{"mod-sets are computed from direct stores in the methods (and one level of same-type helper calls)"},
 		Run:         runC20,
